@@ -60,6 +60,17 @@ def c17(tier):
         run_s2c(rep, "MC_ScratchDB", SCRATCH_CFG.format(spec="SpecL7", keys="K2").replace("VIEW View", "VIEW ViewHist"), R)
         run_s2c(rep, "MC_ScratchDB", SCRATCH_CFG.format(spec="Spec", keys="K3"), R, simulate=dict(num=20000, depth=16))
     need(rep, ["aborted-batch", "committed-batch", "deletes-requested", "write-then-delete", "read-raises-KeyError"])
+    # code -> spec: generated histories on arbitrary byte keys and values
+    import random
+
+    from . import scratchdb_driver as sdd
+    from .common import import_repo, seed
+
+    mod = import_repo()
+    rng = random.Random(seed() * 53 + 1)
+    traces = [sdd.gen_trace(mod, rng) for _ in range(200 if tier == "quick" else 5000)]
+    pipeline.code_to_spec(rep, "Trace_ScratchDB", "Trace_ScratchDB.cfg", traces,
+                          consts=("TraceConsts_ScratchDB", sdd.consts), batches=8 if tier == "quick" else 16)
     return rep.finish()
 
 
